@@ -796,6 +796,8 @@ Proof.
     apply h_fails; [apply nc_low, low_fail | apply fails_fail].
   - destruct (lookup id st) as [sd|];
       [|apply h_fails; [apply nc_low, low_fail | apply fails_fail]].
+    destruct (params_valid fpext sd params); cbn [negb];
+      [|apply h_fails; [apply nc_low, low_fail | apply fails_fail]].
     apply (h_bind _ _ _ _ _ (h_on_execute id sd params sc Hsc)). intros [sd' sc'].
     apply h_pure. cbn [snd]. intro Hsc'. apply h_ret. intros s Hs. split; assumption.
   - destruct (lookup id st) as [sd|];
